@@ -11,3 +11,7 @@ where T: Copy {
     }
     t
 }
+/// store a cell in the real cell storage (slot-map insertion only; no UUID map entry, no wiring)
+pub(crate) fn insert_cell_raw<T, U: DataType, V: DataType, const D: usize>(t: &mut Tds<T, U, V, D>, c: Cell<T, U, V, D>) -> CellKey {
+    t.cells.insert(c)
+}
